@@ -72,6 +72,8 @@ def _install(ctx, ex, hw):
     def first_unused(it_, stn, sc):
         # for physical_address in count(0): invariant  forall q < p: q in used
         used = sc.self0._used_physical_qubit_addresses
+        if not isinstance(used, M.SymIntSet):
+            return NotImplemented       # concrete in-use set: run the real loop
         it_.fresh_ctr += 1
         p = z3.Int(f"scan!{it_.fresh_ctr}")
         q = z3.Int("q!")
